@@ -22,8 +22,8 @@ let parse_tx (s : string) : tx =
 let parse_txs tok = if tok = "-" then [] else List.map parse_tx (split_on ';' tok)
 let parse_cur tok : (z * (z * z)) list =
   list_of tok (fun e -> match split_on ':' e with [a; n; b] -> (zs a, (zs n, zs b)) | _ -> failwith "bad cur")
-let parse_oracle p1 p2 p3 rk : oracle =
-  { operm1 = list_of p1 zs; operm2 = list_of p2 zs; operm3 = list_of p3 zs;
+let parse_oracle p1 p2 p3 p4 rk : oracle =
+  { operm1 = list_of p1 zs; operm2 = list_of p2 zs; operm3 = list_of p3 zs; operm4 = list_of p4 zs;
     orank = list_of rk (fun e -> match split_on ':' e with [h; r] -> (zs h, zs r) | _ -> failwith "bad rank") }
 
 let state : pool option ref = ref None
@@ -84,20 +84,20 @@ let handle (toks : string list) : string =
     "ok " ^ dump p
   | ["block"; h; parent; number; txs] ->
     blocks := { bhash = zs h; bparent = zs parent; bnumber = zs number; btxs = parse_txs txs } :: !blocks; "ok"
-  | ["try"; "addl"; p1; p2; p3; rk; t] ->
-    (match add_local (parse_oracle p1 p2 p3 rk) (get ()) (parse_tx t) with
+  | ["try"; "addl"; p1; p2; p3; p4; rk; t] ->
+    (match add_local (parse_oracle p1 p2 p3 p4 rk) (get ()) (parse_tx t) with
      | Ok (e, p) -> finish_res (match e with None -> "nil" | Some e -> err_name e) (Ok p)
      | Panic -> finish_res "" Panic | OutOfFuel -> finish_res "" OutOfFuel)
-  | ["try"; "addr"; p1; p2; p3; rk; t] ->
-    (match add_remote (parse_oracle p1 p2 p3 rk) (get ()) (parse_tx t) with
+  | ["try"; "addr"; p1; p2; p3; p4; rk; t] ->
+    (match add_remote (parse_oracle p1 p2 p3 p4 rk) (get ()) (parse_tx t) with
      | Ok (e, p) -> finish_res (match e with None -> "nil" | Some e -> err_name e) (Ok p)
      | Panic -> finish_res "" Panic | OutOfFuel -> finish_res "" OutOfFuel)
-  | ["try"; "gasprice"; p1; p2; p3; rk; g] ->
-    finish_res "done" (Ok (set_gas_price (parse_oracle p1 p2 p3 rk) (get ()) (zs g)))
-  | ["try"; "reset"; p1; p2; p3; rk; maxgas; cur; oldb; newb] ->
+  | ["try"; "gasprice"; p1; p2; p3; p4; rk; g] ->
+    finish_res "done" (Ok (set_gas_price (parse_oracle p1 p2 p3 p4 rk) (get ()) (zs g)))
+  | ["try"; "reset"; p1; p2; p3; p4; rk; maxgas; cur; oldb; newb] ->
     (match find_block newb with
      | None -> failwith "reset needs a new head"
-     | Some nb -> finish_res "done" (reset_heads (parse_oracle p1 p2 p3 rk) (get ()) !blocks (find_block oldb) nb (parse_cur cur) (zs maxgas)))
+     | Some nb -> finish_res "done" (reset_heads (parse_oracle p1 p2 p3 p4 rk) (get ()) !blocks (find_block oldb) nb (parse_cur cur) (zs maxgas)))
   | ["reorgtxs"; oldb; newb] ->
     (match find_block newb with
      | None -> failwith "needs a new head"
